@@ -7,7 +7,7 @@ pub const FAMILIES: [&str; 19] = [
     "negzero", "tiechain", "rowconst",
 ];
 /// families that are valid input only for some methods (never drawn blindly)
-pub const SPECIAL_FAMILIES: [&str; 7] = ["rampdips", "maxmag", "hugechain", "subnormal", "star", "decgap", "hugeone"];
+pub const SPECIAL_FAMILIES: [&str; 9] = ["rampdips", "maxmag", "hugechain", "subnormal", "star", "decgap", "hugeone", "decgapdups", "nearlimit"];
 
 /// sizes next to the powers of two at which word / block / narrow-integer shortcuts change behaviour
 pub const BOUNDARY_SIZES: [u64; 18] = [31, 32, 33, 63, 64, 65, 127, 128, 129, 131, 132, 135, 191, 192, 193, 255, 256, 257];
@@ -149,6 +149,23 @@ pub fn matrix_f64(rng: &mut Rng, n: usize, fam: &str, wide: bool) -> Vec<f64> {
             let mut x = vec![0.0f64; n];
             for k in 1..n { x[k] = x[k - 1] + (2 * n - (k - 1)) as f64; }
             for (i, j) in pairs(n) { v.push((x[j] - x[i]).abs()); }
+        }
+        "decgapdups" => {
+            // the first half as `decgap` (one chain through all of them), the second half exact copies
+            // of the last point of that chain: pairwise dissimilarity exactly 0 at the far end of a long
+            // nearest-neighbour chain
+            let k = (n + 1) / 2;
+            let mut x = vec![0.0f64; n];
+            for i in 1..n { x[i] = if i < k { x[i - 1] + (2 * n - (i - 1)) as f64 } else { x[k - 1] }; }
+            for (i, j) in pairs(n) { v.push((x[j] - x[i]).abs()); }
+        }
+        "nearlimit" => {
+            // as large as the domain of the squared methods allows at this size: n times a square
+            // stays below MAX / 8, so every weighted sum Ward forms is finite - while the plain sum of
+            // all n(n-1)/2 squares is not
+            let mx = if wide { f64::MAX } else { f32::MAX as f64 };
+            let top = (mx / (8.0 * n.max(1) as f64)).sqrt();
+            for _ in 0..len { v.push(top * (0.5 + 0.5 * rng.unit())); }
         }
         "hugeone" => {
             // ordinary entries and ONE entry whose square overflows (valid finite input; with Ward
